@@ -6,6 +6,7 @@ R-UNSOLVED  each primal / dual accessor raises ValueError on the 'nothing stored
 R-NONE      the solve root returns the solver's None before touching values or duals; each back-end's solve returns
             a value that is None-when-unsolved by API or is guarded by a status test
 R-OPTIONS   every string-option dispatch is closed by an else that always raises
+R-RAISEMSG  the message of each raise in an accessor is built without an operation that can fail (str + None)
 """
 import ast
 from ..model import AnalysisError, src, loc, call_name, dotted, qualname, norm_stmt, is_const, params_of
@@ -381,9 +382,101 @@ def r_options(ctx):
     return n
 
 
+# ---------------------------------------------------------------------------------------------------
+# R-RAISEMSG: building the message of the documented error cannot itself fail
+# ---------------------------------------------------------------------------------------------------
+def _attr_nonstr(cls, attr, depth=0):
+    """Some assignment of `self.<attr>` in the class stores None, a number, or a parameter whose default is None / a number."""
+    for c in cls.mro():
+        for fn in c.methods.values():
+            defaults = {}
+            a = fn.args
+            pos = a.posonlyargs + a.args
+            for arg, d in zip(pos[len(pos) - len(a.defaults):], a.defaults):
+                defaults[arg.arg] = d
+            for s0 in flow.stmts_of(fn, ast.Assign):
+                if not any(dotted(t) == "self." + attr for t in s0.targets):
+                    continue
+                v = s0.value
+                if isinstance(v, ast.Name) and v.id in defaults:
+                    v = defaults[v.id]
+                if isinstance(v, ast.Constant) and not isinstance(v.value, str):
+                    return "`%s` can be %r (%s.%s)" % (attr, v.value, c.name, fn.name)
+                if dotted(v) and dotted(v).endswith(".counter"):
+                    return "`%s` is an integer (%s.%s)" % (attr, c.name, fn.name)
+    return None
+
+
+def _nonstr_operand(e, fn, repo):
+    """Reason why an operand of a string concatenation may not be a string, or None (a string, or unknown)."""
+    cls = getattr(fn, "_cls", None)
+    if isinstance(e, ast.Constant):
+        return None if isinstance(e.value, str) else "`%r` is not a string" % (e.value,)
+    d = dotted(e)
+    if d and d.startswith("self.") and d.count(".") == 1 and cls is not None:
+        return _attr_nonstr(cls, d.split(".", 1)[1])
+    if isinstance(e, ast.Call) and isinstance(e.func, ast.Attribute) and dotted(e.func.value) == "self" and cls is not None and not e.args:
+        m = cls.find_method(e.func.attr)
+        if m is not None:
+            rets = [r for r in ast.walk(m) if isinstance(r, ast.Return)]
+            for r in rets:
+                rd = dotted(r.value) if r.value is not None else None
+                if r.value is None or is_const(r.value, None):
+                    return "%s() can return None" % e.func.attr
+                if rd and rd.startswith("self.") and rd.count(".") == 1:
+                    why = _attr_nonstr(cls, rd.split(".", 1)[1])
+                    if why:
+                        return "%s() returns %s" % (e.func.attr, why)
+    return None
+
+
+def _concat_operands(e):
+    if isinstance(e, ast.BinOp) and isinstance(e.op, ast.Add):
+        return _concat_operands(e.left) + _concat_operands(e.right)
+    return [e]
+
+
+def r_raise_message(ctx):
+    """In the accessors, the argument of every `raise X(...)` is a string expression that cannot raise TypeError while it is built:
+    in a `+` concatenation with a string literal, no operand is an attribute / getter that can be None or a number."""
+    n = 0
+    fns = [ctx.repo.method(c, m) for c, m, k in ACCESSORS]
+    for fn in fns:
+        defs = {}
+        for s0 in flow.stmts_of(fn, ast.Assign):
+            if len(s0.targets) == 1 and isinstance(s0.targets[0], ast.Name):
+                defs.setdefault(s0.targets[0].id, []).append(s0.value)
+        k = 0
+        for r in [x for x in ast.walk(fn) if isinstance(x, ast.Raise) and isinstance(x.exc, ast.Call)]:
+            n += 1
+            k += 1
+            bad = None
+            for a in r.exc.args:
+                exprs = [a] if not isinstance(a, ast.Name) else defs.get(a.id, [])
+                for e in exprs:
+                    for sub in ast.walk(e):
+                        if not (isinstance(sub, ast.BinOp) and isinstance(sub.op, ast.Add)):
+                            continue
+                        ops = _concat_operands(sub)
+                        if not any(isinstance(o, ast.JoinedStr) or (isinstance(o, ast.Constant) and isinstance(o.value, str)) for o in ops):
+                            continue
+                        for o in ops:
+                            why = _nonstr_operand(o, fn, ctx.repo)
+                            if why:
+                                bad = (o, why)
+            key = "%s::raise %s #%d" % (qualname(fn), call_name(r.exc) or src(r.exc.func), k)
+            ctx.ob("R-RAISEMSG", key, bad is None,
+                   "the message is built from literals / formatting only" if bad is None else
+                   "the message concatenates a string with `%s` and %s: building the message raises TypeError, which replaces the documented %s"
+                   % (src(bad[0]), bad[1], call_name(r.exc)), loc(fn, r))
+    ctx.count("raise statements of the accessors", n)
+    return n
+
+
 def run(ctx):
     ne = r_except(ctx)
     na = r_unsolved(ctx)
+    r_raise_message(ctx)
     r_operand_access(ctx)
     r_none(ctx)
     no = r_options(ctx)
